@@ -327,7 +327,12 @@ func (cmd *mainCmd) Run(args []string) error {
 				errors = append(errors, fmt.Errorf("reformat %q: %w", filename, err))
 				continue
 			}
-
+		} else if _, err := parser.ParseFile(token.NewFileSet(), filename, bs, parser.AllErrors|parser.ParseComments); err != nil {
+			// Import processing re-parses the output as a side effect.
+			// Without it, check here that the rewritten file is still
+			// valid Go rather than emit something that does not parse.
+			errors = append(errors, fmt.Errorf("reformat %q: %w", filename, err))
+			continue
 		}
 
 		switch {
